@@ -171,14 +171,39 @@ def render_script(items):
     return "\n".join(lines) + "\n"
 
 
-def make_case(items, limit=0, stream="fdsess", meta=None):
+def make_case(items, limit=0, stream="fdsess", meta=None, mode="script"):
     enc = ";".join(("P:" + hx(it[1])) if it[0] == "P" else ("S:%s:%s" % (hx(it[1]), hx(it[2]))) for it in items)
     files = ";".join(hx(n) + "=" + ",".join(hx(l) for l in ls) for n, ls in sorted(PRE_FILES.items()))
-    m = {"gen": "q", "script": render_script(items)}
+    m = {"gen": "q", "script": render_script(items), "mode": mode}
     if meta:
         m.update(meta)
     return Case(stream, [str(limit), enc, ",".join(hx(x) for x in UNWRITABLE), ",".join(hx(x) for x in UNREADABLE),
-                         ",".join(hx(x) for x in NOTFOUND), ",".join(hx(x) for x in STDIN_LINES), files, "script"], m)
+                         ",".join(hx(x) for x in NOTFOUND), ",".join(hx(x) for x in STDIN_LINES), files, mode], m)
+
+
+CORPUS = [
+    # (items, mode): witnesses of repaired defects and of known findings; they run first in every check
+    ([("P", "fdstage a0x0 2>&1"), ("P", "fdstage q0 P S$?"), ("P", "fdstage a1x0 1>&2"), ("P", "fdstage q1 P S$?")], "script"),
+    ([("S", "fdstage o0 S", "minfd"), ("P", "minfd"), ("P", "fdstage q0 P S$?")], "script"),
+    ([("P", "fdstage a0x0 Wx | fdstage a0x1 R <<< foo"), ("P", "fdstage q0 P S$?")], "script"),
+    ([("P", "fdstage a0x0 | fdstage a0x1 R | fdstage a0x2 R <<< foo"), ("P", "fdstage q0 P S$?")], "script"),
+    ([("P", "fdstage a0x0 > t1 2>&1 Wo Ee"), ("P", "fdstage a1x0 2>&1 > t2 Wo Ee"), ("P", "fdstage q1 P S$?")], "script"),
+    ([("P", "alias q7=v"), ("P", "alias 1>&2 2> t1"), ("P", "fdstage q0 P S$?"), ("P", "alias a b c 2>&1 > t2"), ("P", "fdstage q1 P S$?")], "script"),
+    ([("P", "minfd 1>&2 >&2"), ("P", "fdstage q0 P S$?"), ("P", "minfd 1>&2 1> t1"), ("P", "fdstage q1 P S$?")], "script"),
+    ([("P", "alias q7=v"), ("P", "alias > adir"), ("P", "fdstage q0 P S$?"), ("P", "fdstage a1x0 Wo > nodir/x"), ("P", "fdstage q1 P S$?")], "script"),
+    ([("S", "fdstage o0 ", "fdstage c0x0 WEzz Ec0 2> t1"), ("P", "fdstage q0 P S$?"), ("S", "fdstage o1 ", "fdstage c1x0 WEzz > t2"), ("P", "fdstage q1 P S$?")], "script"),
+    ([("S", "fdstage o0 ", "fdstage c0x0 WEzz Ec0 2>&1"), ("P", "fdstage q0 P S$?")], "script"),
+    ([("P", "ulimit -n 8"), ("S", "fdstage o0 ", "fdstage c0x0 Wx0 | fdstage c0x1 F"), ("P", "fdstage q0 P S$?")], "c"),
+    ([("P", "ulimit -n 6"), ("P", "fdstage a0x0 <<< hs | fdstage a0x1 R"), ("P", "fdstage q0 P S$?"), ("P", "fdstage a1x0 Wok"), ("P", "fdstage q1 P S$?")], "c"),
+    ([("P", "ulimit -n 7"), ("P", "fdstage a0x0 | fdstage a0x1 R <<< hs | fdstage a0x2 R"), ("P", "fdstage q0 P S$?")], "c"),
+    ([("P", "nosuchprog <<< hs"), ("P", "fdstage q0 P S$?"), ("P", "fdstage a1x0 R >> nodir/x <<< hs"), ("P", "fdstage q1 P S$?")], "script"),
+    # a here-string larger than a pipe buffer given to a command that never reads it (the shell used to die of SIGPIPE)
+    ([("P", "fdstage a0x0 <<< " + "x" * 65536), ("P", "fdstage q0 P S$?")], "script"),
+]
+
+
+def corpus_cases():
+    return [make_case(items, mode=mode, meta={"corpus": True}) for items, mode in CORPUS]
 
 
 # ----------------------------------------------------------------------------- running
@@ -243,7 +268,8 @@ def run_session(cicada, case, idx, timeout=60):
         std = {os.path.realpath(fin): 0, os.path.realpath(fout): 1, os.path.realpath(ferr): 2, os.path.realpath(spath): 3}
         with open(fin) as i, open(fout, "w") as o, open(ferr, "w") as e:
             try:
-                p = subprocess.run([cicada, spath], cwd=cwd, env=sb.env({"OBS_DIR": obs}), stdin=i, stdout=o, stderr=e, timeout=timeout)
+                argv = [cicada, spath] if case.meta.get("mode", "script") == "script" else [cicada, "-c", " ; ".join(case.meta["script"].strip().split("\n"))]
+                p = subprocess.run(argv, cwd=cwd, env=sb.env({"OBS_DIR": obs}), stdin=i, stdout=o, stderr=e, timeout=timeout)
                 rc = p.returncode
             except subprocess.TimeoutExpired:
                 return "HANG"
